@@ -53,7 +53,10 @@ Proj(S) ==
    conns |-> SortedSeq(ToSet(S.connections)), socks |-> SortedSeq(ToSet(S.peerSockets)),
    apps |-> [a \in Apps |-> IF S.appReady[a] THEN 1 ELSE 0],
    closed |-> SortedSeq({c \in ConnIds : S.conn[c].used /\ S.conn[c].sock = "closed"}),
-   cst |-> LET cs == SortedSeq(ToSet(S.connections)) IN [i \in 1..Len(cs) |-> [c |-> cs[i], st |-> S.conn[cs[i]].st]]]
+   cst |-> LET cs == SortedSeq(ToSet(S.connections)) IN [i \in 1..Len(cs) |-> [c |-> cs[i], st |-> S.conn[cs[i]].st]],
+   \* sizes of the node's private tables, live worker threads, open sockets (-1 in a trace = not observable)
+   tb |-> LET r == Retained(S) IN <<r.connections, r.peerSockets, r.socketPeers, r.halfReady, r.peerWait, r.appWait, r.originWait,
+                                    r.threads, r.openSockets + Len(S.backlog)>>]
 
 
 \* one trace step of the model: environment action, then run to quiescence
